@@ -41,13 +41,20 @@ RecStates == {"none", "rec_partial", "rec_nomd5", "md5_partial", "done"}
 RCfg(n, w, sk, r) == [name |-> n, recwrite |-> w, skip |-> sk, ncrerun |-> r]
 RCurrent  == RCfg("current", "inplace", "exists", "rewrite")
 RRaising  == RCfg("raising", "inplace", "exists", "raises")
+(* DataStoreSqlite + write_db: one row per input (record, checksum, completed flag) written by one  *)
+(* statement; completed and not-completed records share the record id, so `input_id in store` also *)
+(* skips inputs that already have a not-completed record (re-writing one would be refused in       *)
+(* append mode, the only mode in which an existing sqlite store can be resumed)                     *)
+RSqlite   == RCfg("sqlite", "atomic", "exists", "skip")
 RIntended == RCfg("intended", "atomic", "complete", "rewrite")
 RIntendedSkip == RCfg("intended_skip", "atomic", "complete", "skip")
-CurrentConfigs == {RCurrent}
+CurrentConfigs == {RCurrent, RSqlite}
+DirectoryConfigs == {RCurrent}
 NCNone == {{}}
 NCQuick == {{}, {2}}
 NCThorough == {{}, {2}, {4}, {1, 3}}
 IntendedConfigs == {RIntended, RIntendedSkip}
+HoldingConfigs == IntendedConfigs \cup {RSqlite}   \* the resume property holds for these
 
 ------------------------------------------------------------------------------
 (* THE PROPERTY, per input: a = record state when run 1 was interrupted,      *)
